@@ -169,6 +169,9 @@ func (x *Exec) goType(text string, pkg string) (types.Type, error) {
 			}
 		}
 	}
+	if text == "struct{}" {
+		return types.NewStruct(nil, nil), nil
+	}
 	if o := types.Universe.Lookup(text); o != nil {
 		if tn, ok := o.(*types.TypeName); ok {
 			return tn.Type(), nil
@@ -492,6 +495,18 @@ func (x *Exec) specIdent(c *SpecCtx, name string) (*Val, error) {
 				v = retype(v, x.paramTyp[name])
 			}
 			return v, nil
+		}
+		if c.li != nil || c.inBody {
+			// a local struct variable whose address escapes lives on the heap: the name denotes (a pointer to) it
+			for _, b := range x.fn.Blocks {
+				for _, in := range b.Instrs {
+					if a, ok := in.(*ssa.Alloc); ok && a.Heap && a.Comment == name {
+						if v, ok := x.regs[a]; ok && v.K == VScalar {
+							return retype(v, a.Type()), nil
+						}
+					}
+				}
+			}
 		}
 		if name == "result" || strings.HasPrefix(name, "result") {
 			if v, ok := x.resultVar(name); ok {
@@ -983,7 +998,7 @@ func inferPatterns(bound []*Term, body *Term) [][]*Term {
 		var out [][]*Term
 		for _, c := range cands[bound[0].Op] {
 			out = append(out, []*Term{c})
-			if len(out) >= 4 {
+			if len(out) >= 12 {
 				break
 			}
 		}
